@@ -567,6 +567,18 @@ func gamma_incomplete_imp(a, x float64, normalised, invert bool) float64 {
 
   result := 0.0
 
+  if x == 0.0 && a > 0.0 {
+    // P(a,0) = 0, Q(a,0) = 1
+    if !invert {
+      return 0.0
+    } else
+    if normalised {
+      return 1.0
+    } else {
+      return math.Gamma(a)
+    }
+  }
+
   if(int(a) >= MaxFactorial && !normalised) {
     //
     // When we're computing the non-normalized incomplete gamma
